@@ -321,8 +321,27 @@ def inverse_relations(ctx, rule, modname, x, fn, rel_a, rel_b):
     if not ia or not ib:
         ctx.undecided(rule, ctx.site(modname, fn), f"insertions into the inverse relations self.{rel_a} / self.{rel_b} not recognised", f"{len(ia)} / {len(ib)}")
         return
+    def derived_from(ins, src):
+        """the insertion `self.<dst>[ROW[i]].add(K)` runs over ROW = (a copy of) the finished row self.<src>[K]: dst is filled from src"""
+        e, k, v, fr, cs = ins
+        if not fr or fr[-1].kind != "seq" or not isinstance(k, ast.Subscript):
+            return False
+        last = fr[-1]
+        if not (isinstance(k.slice, ast.Name) and k.slice.id == last.var and q.same(x.canon(k.value), x.canon(last.dom))):
+            return False
+        for _, leaf in sx.leaves(last.dom):
+            kk = q.lookup_key(x.canon(q._strip_conv(leaf)), src)
+            if kk is None or not q.same(kk, v):
+                return False
+        return True
+    fill_b_from_a = any(derived_from(o, rel_a) for o in ib)
+    fill_a_from_b = any(derived_from(o, rel_b) for o in ia)
     for mine, others, a, b in ((ia, ib, rel_a, rel_b), (ib, ia, rel_b, rel_a)):
         for e, k, v, fr, cs in mine:
+            src_filled_later = fill_b_from_a if a == rel_a else fill_a_from_b      # the other relation is rebuilt from the rows of this one
+            if derived_from((e, k, v, fr, cs), b) or src_filled_later:
+                ctx.check(True, rule, ctx.site(modname, e.fn, e.node), "", "", note=f"{rel_a}/{rel_b}: one relation is filled from the finished rows of the other")
+                continue
             partner = [o for o in others if _ctx_key(o[0], o[3], o[4]) == _ctx_key(e, fr, cs)
                        and q.same(q.alpha(o[1], o[3]), q.alpha(v, fr)) and q.same(q.alpha(o[2], o[3]), q.alpha(k, fr))]
             ctx.check(bool(partner), rule, ctx.site(modname, e.fn, e.node),
